@@ -3,6 +3,7 @@ import XmlRsModel.Chars
 import XmlRsModel.Names
 import XmlRsModel.CharData
 import Driver.Dump
+import Driver.XPathOps
 /-! Operations of the model driver. -/
 namespace Driver
 open XmlRs
@@ -131,9 +132,14 @@ def dispatch (op : String) (args : List Str) : String :=
   | "accept", [s] => opAccept "cur" s
   | "accept", [w, s] => opAccept (String.ofList w) s
   | "print", [s] => opPrint s
+  | "attrs", [s] => opAttrs false s
+  | "attrs", [w, s] => opAttrs (String.ofList w == "cur") s
   | "pipeline", [s] => opAccept "cur" s
   | "roundtrip", [s] => opRoundtrip s
   | "chardata", k :: c :: ops => chardata (String.ofList k) c ops
+  | "query", t :: b :: es => opQuery "wr" t b es
+  | "qfresh", t :: b :: es => opQuery "wr" t b es
+  | "queryq", q :: t :: b :: es => opQuery (String.ofList q) t b es
   | _, _ => "bad-op"
 
 end Driver
